@@ -1,4 +1,4 @@
-SPECIFICATION Spec
+SPECIFICATION FairSpec
 CONSTANTS
   Agents = {"a1", "a2"}
   Seeders = {"s1"}
@@ -8,6 +8,6 @@ CONSTANTS
   Pipes = {1}
   MayLeave = {"a2"}
   Verify = TRUE
-INVARIANT Inv
-PROPERTY Monotone
+INVARIANT TypeOK
+PROPERTY Converges
 CHECK_DEADLOCK FALSE
